@@ -19,9 +19,9 @@ func init() { checks["C20"] = c20{} }
 func (c20) Level() string { return "fault_enumeration" }
 func (c20) NumCases(tier string) int {
 	if tier == "thorough" {
-		return 60000
+		return 150000
 	}
-	return 3000
+	return 5000
 }
 func (c20) Rule() string {
 	return "case = generated (engine config, template tree, bindings[, cached include files]) x entry point (FRender / ParseAndFRender); a fault-free render records the W Write calls; then for EVERY write index k in [0,W) (sampled to 400 incl. first/last 50 when W>400), accept in {0, random strict prefix, len-1} and mode in {sticky, transient} the render is repeated with the writer failing at call k. An execution is non-trivial if the fault fired and W>=2; distinct by hash(template source, bindings, entry point, k, accept, mode)."
